@@ -17,6 +17,7 @@ import (
 
 	"verif/checks/c04"
 	"verif/internal/ev"
+	"verif/internal/gen"
 	"verif/internal/par"
 )
 
@@ -190,7 +191,7 @@ func mkProps(ps []string) map[string]*jsonschema.Schema {
 
 func Run(r *ev.Run) {
 	cs := cases()
-	r.Rule("property name sets of size<=4 over {a,b,c,d,é,\"\"} x every PropertyOrder that is a permutation of a subset, such a list with names absent from properties inserted at every position, or a list with one duplicate (present or absent name); plus every name set of size<=3 over 13 names whose JSON encoding sorts differently from the name (space, !, <, &, control characters, U+2028, quote, backslash, case) with no / empty / single-name orders; each at the root, nested under properties / items / $defs / allOf / anyOf / oneOf / not / array-form items / dependencies (schema form beside a string form) / patternProperties / dependentSchemas+then with an own order on both levels, and marshalled as a value inside map[string]Schema; duplicates also with nil and empty Properties. Oracle R5: key order read from the token stream = listed names that exist, in list order, then the rest ascending; a duplicate anywhere in the tree makes Marshal fail. Determinism: 20 marshals of every value (and of every schema For returns for the G-type catalogue) give identical bytes; the caller's PropertyOrder slice is unchanged afterwards. Non-trivial = every case (distinct by construction)")
+	r.Rule("property name sets of size<=4 over {a,b,c,d,é,\"\"} x every PropertyOrder that is a permutation of a subset, such a list with names absent from properties inserted at every position, or a list with one duplicate (present or absent name); plus every name set of size<=3 over 13 names whose JSON encoding sorts differently from the name (space, !, <, &, control characters, U+2028, quote, backslash, case) with no / empty / single-name orders; each at the root, nested under properties / items / $defs / allOf / anyOf / oneOf / not / array-form items / dependencies (schema form beside a string form) / patternProperties / dependentSchemas+then with an own order on both levels, and marshalled as a value inside map[string]Schema; duplicates also with nil and empty Properties. Oracle R5: key order read from the token stream = listed names that exist, in list order, then the rest ascending; a duplicate anywhere in the tree makes Marshal fail. Determinism: 20 marshals of every value (and of every schema For returns for the G-type catalogue, also around overridden embedded structs, 20 x For+Marshal) give identical bytes; the caller's PropertyOrder slice is unchanged afterwards. Non-trivial = every case (distinct by construction)")
 	r.Assume("R5 is the documented rule of Schema.PropertyOrder", "map-iteration orders are explored in the instrumented build (C19 env part); here repetition only confirms")
 	r.Set("cases", len(cs))
 	type nest struct {
@@ -338,6 +339,61 @@ func Run(r *ev.Run) {
 			}
 		}
 	})
+	// schemas For builds around an overridden embedded struct (PropertyOrder assembled from the override's properties)
+	ov := func(names ...string) *jsonschema.Schema {
+		m := map[string]*jsonschema.Schema{}
+		for _, n := range names {
+			m[n] = &jsonschema.Schema{Type: "integer"}
+		}
+		return &jsonschema.Schema{Type: "object", Properties: m}
+	}
+	for _, t := range []reflect.Type{reflect.TypeOf(gen.EmbVal{}), reflect.TypeOf(gen.EmbPtr{}), reflect.TypeOf(gen.Emb2{}), reflect.TypeOf(gen.TopOver{}), reflect.TypeOf(gen.MidOver{}), reflect.TypeOf(gen.ShadowAfter{}), reflect.TypeOf([]gen.Emb2Ptr{})} {
+		for oi, tsm := range []map[reflect.Type]*jsonschema.Schema{
+			{reflect.TypeOf(gen.Inner{}): ov("zz", "aa", "Z", "mm")}, {reflect.TypeOf(gen.Base{}): ov("id2", "after", "a b")}, {reflect.TypeOf(gen.Mid{}): ov("b", "a")}, {reflect.TypeOf(gen.Inner{}): ov()},
+		} {
+			s, err := jsonschema.ForType(t, &jsonschema.ForOptions{TypeSchemas: tsm})
+			if err != nil || s == nil {
+				continue
+			}
+			key := fmt.Sprintf("Marshal(ForType(%s, embedded override %d))", t, oi)
+			if r.OnlyKey != "" && r.OnlyKey != key {
+				continue
+			}
+			b, err := json.Marshal(s)
+			if err != nil {
+				r.Fail(key, map[string]any{"class": "marshal error", "error": err.Error()})
+				continue
+			}
+			r.Eval(1)
+			r.NontrivialN(1)
+			var check func(x *jsonschema.Schema, path []string)
+			check = func(x *jsonschema.Schema, path []string) {
+				if x == nil {
+					return
+				}
+				if len(x.Properties) > 0 {
+					set := map[string]bool{}
+					for p := range x.Properties {
+						set[p] = true
+					}
+					want := expected(set, x.PropertyOrder)
+					got, kerr := keysAt(b, append(append([]string(nil), path...), "properties"))
+					if kerr != nil || !slices.Equal(got, want) {
+						r.Fail(key, map[string]any{"class": "property order", "want": want, "got": got, "output": strings.TrimSpace(string(b)), "error": fmt.Sprint(kerr)})
+					}
+				}
+				check(x.Items, append(append([]string(nil), path...), "items"))
+			}
+			check(s, nil)
+			for rep := 0; rep < 20; rep++ {
+				s2, _ := jsonschema.ForType(t, &jsonschema.ForOptions{TypeSchemas: tsm})
+				if b2, _ := json.Marshal(s2); !bytes.Equal(b, b2) {
+					r.Fail(key, map[string]any{"class": "repeated For+Marshal differs", "first": string(b), "later": string(b2)})
+					break
+				}
+			}
+		}
+	}
 	if r.OnlyKey == "" || true {
 		envrun.Explore(r, "ENV", "c19env", "env", 16)
 	}
